@@ -323,6 +323,64 @@ func runC13(r *Run) {
 		configFuncFieldsRule(r, limPkg, "limiter")
 	})
 
+	r.rule("R11", "what the limiter hands to an external Storage is not its own scratch memory (E3, shared with C14-R7)", func() {
+		storageSetFreshBytesRule(r, limPkg, "limiter", 1)
+	})
+
+	r.rule("R12", "the window is never zero seconds long: the handlers measure it in whole seconds (uint64(Expiration.Seconds())), so configDefault falls back to the default on the same quantity, not on the raw duration (a sub-second Expiration truncates to 0: the fixed window never fills, the sliding weight is 0/0) (E5, writer/reader agreement)", func() {
+		isSeconds := func(v ssa.Value) bool {
+			c, ok := v.(*ssa.Call)
+			return ok && calleeName(&c.Call) == "(time.Duration).Seconds" && dependsOn(c.Call.Args[0], func(x ssa.Value) bool { return loadOfField(x, "limiter.Config.Expiration") }) != nil
+		}
+		uses := 0
+		for _, t := range []string{"FixedWindow", "SlidingWindow"} {
+			f := r.Fn(limPkg, "("+t+").New")
+			for _, c := range callsMatching(f, false, nameIs("(time.Duration).Seconds")) {
+				if isSeconds(c.Value()) {
+					uses++
+				}
+			}
+		}
+		r.atLeast("handlers measuring the window in whole seconds", uses, 2)
+		cd := r.Fn(limPkg, "configDefault")
+		n := 0
+		for _, fr := range fieldRefs(cd) {
+			if !fr.Write || fr.Name != "limiter.Config.Expiration" || fr.Val == nil {
+				continue
+			}
+			if dependsOn(fr.Val, func(x ssa.Value) bool {
+				u, ok := x.(*ssa.UnOp)
+				if !ok {
+					return false
+				}
+				g, isG := u.X.(*ssa.FieldAddr)
+				if !isG {
+					return false
+				}
+				_, fromGlobal := g.X.(*ssa.Global)
+				return fromGlobal
+			}) == nil {
+				continue
+			}
+			n++
+			guarded := false
+			for _, br := range branchesIn(cd) {
+				if dependsOn(br.Info.Root, isSeconds) == nil {
+					continue
+				}
+				for sl := 0; sl < 2; sl++ {
+					tgt := br.If.Block().Succs[sl]
+					if len(tgt.Preds) == 1 && dom(tgt, fr.Instr.Block()) {
+						guarded = true
+					}
+				}
+			}
+			r.check(guarded, fmt.Sprintf("configDefault:Expiration-default#%d:on-whole-seconds", n), r.pos(fr.Instr), "the default is applied under a test of Expiration.Seconds()",
+				"configDefault keeps an Expiration the handlers truncate to 0 seconds (the fallback tests the raw duration): with Expiration: 500ms the fixed window resets on every request and admits everything, the sliding window divides 0 by 0 and rejects everything")
+		}
+		r.atLeast("default Expiration stores", n, 1)
+	})
+
 	r.rule("R10", "the sliding window keeps an entry into the next window: every manager.set of its handler uses a lifetime that includes the time left in the current window (E5)", func() {
 		h := limiterHandlers(r)["SlidingWindow"]
 		n := 0
